@@ -76,4 +76,7 @@ theorem close_idempotent (r : Resources) : closeAll (closeAll r) = closeAll r :=
 example : Reach 1 { conns := [⟨7, true, false, 0⟩], count := 1, rejected := 0 } :=
   Reach.step _ _ Reach.init (Step.accept init 7 (by simp [init]) (Or.inr (by simp [init])))
 
+/-- regenerated from the source on every run: Listen starts the idle reaper before it chooses between a TLS and a plain listener -/
+theorem gen_reaper_for_every_listener : Gen.listenStartsReaperForEveryListener = true := by decide
+
 end Props.C17
